@@ -16,6 +16,7 @@ system.  Executable, core Lean only.
   - `resolve` = `resolve_merge_lambda`.
 * `deliver s i` takes the i-th in-flight message (ANY i: any delivery order) and runs the
   handler body literally.  `ASSERT_RELEASE` failures set `aborted`.
+* `clear s` = `clear()`: barrier (so: nothing in flight), then every local map emptied.
 * ghost fields (never read by a handler): `issued`, `mergeLog`; `cbs` = user callbacks run.
 
 Ranks are `Int` (the initial walk carries `other_rank = -1`); the code's `int16_t` would
@@ -178,6 +179,13 @@ own name over itself changes nothing) -/
 def compress (s : State) (x : Item) : State :=
   let s0 := visit s x
   if parent s0 x = x then s0 else reparent s0 x (root s0 x)
+
+/-- `clear()`: `m_comm.barrier(); m_local_item_parent_map.clear();` — the barrier comes FIRST, so
+this step is only taken when nothing is in flight (`Step.clear` carries `s.msgs = []`; the
+driver drains before it).  Every rank then empties its map.  The ghost logs restart:
+connectivity, callbacks and merges are from now on "w.r.t. the unions issued since the last
+clear". -/
+def clear (s : State) : State := { init with aborted := s.aborted }
 
 /-- `all_compress()` (behind `for_all`): every item ends up pointing at its representative -/
 def compressAll (s : State) : State := s.dom.foldl compress s
